@@ -1464,6 +1464,19 @@ class Evaluator:
                         opn, b = "Mult", c.const(1 / b.const())
             if opn in ("Mult", "Add") and a.is_const() and not b.is_const() and not isinstance(a.const(), bool):
                 a, b = b, a
+            if opn == "Add":
+                # concatenation with a tuple / list display is a display with the other operand spliced in:
+                # x[:k] + (v,) + x[k + 1:]  is  (*x[:k], v, *x[k + 1:])
+                ha, hb = c.head_of(a), c.head_of(b)
+                la = ha[0] if ha and ha[0] in ("tuple", "list") and len(ha) == 1 else None
+                lb = hb[0] if hb and hb[0] in ("tuple", "list") and len(hb) == 1 else None
+                if la or lb:
+                    if la and lb and la != lb:
+                        return c.mk(("fbin", opn), (a, b))         # tuple + list raises: left as written
+                    kind = la or lb
+                    left = list(c.args_of(a)) if la else [c.mk(("star",), (a,))]
+                    right = list(c.args_of(b)) if lb else [c.mk(("star",), (b,))]
+                    return c.mk((kind,), left + right)
             return c.mk(("fbin", opn), (a, b))
         if isinstance(op, ast.Add):
             # list/tuple/str concatenation stays symbolic but commutative-insensitive is wrong for
